@@ -410,9 +410,9 @@ func gen(body []byte) *core.Verdict {
 
 func cfgs(tier string) []string {
 	if tier == "thorough" {
-		return []string{"raw5", "dq1_6", "dq2_6", "dq3_6", "pat_6", "cmt_6", "sq_6", "mb_5", "tok5"}
+		return []string{"raw5", "dq1_6", "dq2_6", "dq3_6", "pat_6", "patblk_5", "cmt_6", "sq_6", "mb_5", "tok5"}
 	}
-	return []string{"raw4", "dq1_5", "dq2_5", "dq3_5", "pat_5", "cmt_5", "sq_5", "mb_4", "tok5"}
+	return []string{"raw4", "dq1_5", "dq2_5", "dq3_5", "pat_5", "patblk_5", "cmt_5", "sq_5", "mb_4", "tok5"}
 }
 
 func check(r *core.Run, prop string) {
@@ -420,7 +420,7 @@ func check(r *core.Run, prop string) {
 	if r.Tier == "thorough" {
 		n = 6000
 	}
-	r.Rule = "A: every text over a 16-symbol alphabet (every character class of the reader, a multi-byte character included) up to the bound; every continuation of 6 prefixes (plain, tab-indented, `pattern`, after a block comment, after a single-quoted piece and '+', after multi-byte comments and strings) over a 10-symbol string alphabet; every sequence of whole lexemes (keyword, argument, multi-line double-quoted string, single-quoted string, +, ;, {, }, both comment forms, blank, LF, CR LF) up to the bound; each parsed by yang.Parse and compared with the reader of Text.tla (acceptance, keywords, argument presence, exact argument strings, nesting, order); B: grammar-directed random modules of nesting 6 with comments, concatenations, multi-line strings, and single-character corruptions, judged by TextTrace.tla. Non-trivial = accepted non-empty forest or exactly one token-level fault."
+	r.Rule = "A: every text over a 16-symbol alphabet (every character class of the reader, a multi-byte character included) up to the bound; every continuation of 7 prefixes (plain, tab-indented, `pattern`, inside the block of a pattern statement (closed by a fixed suffix), after a block comment, after a single-quoted piece and '+', after multi-byte comments and strings) over a 10-symbol string alphabet; every sequence of whole lexemes (keyword, argument, multi-line double-quoted string, single-quoted string, +, ;, {, }, both comment forms, blank, LF, CR LF) up to the bound; each parsed by yang.Parse and compared with the reader of Text.tla (acceptance, keywords, argument presence, exact argument strings, nesting, order); B: grammar-directed random modules of nesting 6 with comments, concatenations, multi-line strings, and single-character corruptions, judged by TextTrace.tla. Non-trivial = accepted non-empty forest or exactly one token-level fault."
 	r.Exhaustive = true
 	r.Assumptions = []string{"the four constructs the quantifier leaves ambiguous are executed (crash monitor) but not compared", "a backslash before a literal line break inside a pattern argument is treated as ambiguous too"}
 	core.CaseSuffix = `,"prop":"` + prop + `"}`
